@@ -195,6 +195,50 @@ func runG7(r *Repo, rep *Report) {
 			return false
 		}
 		switch x := s.(type) {
+		case *ast.BlockStmt:
+			exec(append(append([]ast.Stmt{}, x.List...), rest...), en, cont)
+			return
+		case *ast.SwitchStmt:
+			// a switch without a tag is an if / else-if chain over its cases, in order
+			if x.Tag != nil {
+				undecided = "switch with a tag at " + r.pos(x.Pos())
+				return
+			}
+			if x.Init != nil {
+				as, ok := x.Init.(*ast.AssignStmt)
+				if !ok || !bind(as) {
+					undecided = "unrecognised switch-init " + r.pos(x.Init.Pos())
+					return
+				}
+			}
+			var chain ast.Stmt
+			var def []ast.Stmt
+			var clauses []*ast.CaseClause
+			for _, c := range x.Body.List {
+				cc := c.(*ast.CaseClause)
+				for _, st := range cc.Body {
+					if br, ok := st.(*ast.BranchStmt); ok && (br.Tok == token.FALLTHROUGH || br.Tok == token.BREAK) {
+						undecided = "break/fallthrough inside a switch at " + r.pos(br.Pos())
+						return
+					}
+				}
+				if cc.List == nil {
+					def = cc.Body
+					continue
+				}
+				clauses = append(clauses, cc)
+			}
+			var tail ast.Stmt = &ast.BlockStmt{List: def}
+			for i := len(clauses) - 1; i >= 0; i-- {
+				cc := clauses[i]
+				// case a, b:  is  if a { body } else if b { body }
+				for j := len(cc.List) - 1; j >= 0; j-- {
+					tail = &ast.IfStmt{Cond: cc.List[j], Body: &ast.BlockStmt{List: cc.Body}, Else: tail}
+				}
+			}
+			chain = tail
+			exec(append([]ast.Stmt{chain}, rest...), en, cont)
+			return
 		case *ast.IfStmt:
 			if x.Init != nil {
 				as, ok := x.Init.(*ast.AssignStmt)
@@ -453,10 +497,30 @@ func g7NewName(r *Repo, rep *Report) {
 				continue
 			}
 			e := d.Rhs[i]
-			for {
+			for depth := 0; depth < 8; depth++ {
 				if be, ok := ast.Unparen(e).(*ast.BinaryExpr); ok && be.Op == token.ADD {
 					e = be.X
 					continue
+				}
+				// a local variable with a single definition stands for that definition (base := tm.prefix + "_")
+				if lid, ok := ast.Unparen(e).(*ast.Ident); ok {
+					if lv, ok := info.Uses[lid].(*types.Var); ok && lv != nameVar {
+						var defs []ast.Expr
+						ast.Inspect(fi.Decl.Body, func(n ast.Node) bool {
+							if as, ok := n.(*ast.AssignStmt); ok && len(as.Lhs) == len(as.Rhs) {
+								for k, l := range as.Lhs {
+									if id2, ok := l.(*ast.Ident); ok && (info.Defs[id2] == lv || info.Uses[id2] == lv) {
+										defs = append(defs, as.Rhs[k])
+									}
+								}
+							}
+							return true
+						})
+						if len(defs) == 1 {
+							e = defs[0]
+							continue
+						}
+					}
 				}
 				break
 			}
@@ -542,6 +606,12 @@ func g7NewName(r *Repo, rep *Report) {
 	}
 	// the loop body must change the candidate and advance the counter
 	adv := nodeHas(loop.Body, func(n ast.Node) bool { _, ok := n.(*ast.IncDecStmt); return ok })
+	if loop.Post != nil {
+		// for n := 0; ...; n++
+		if _, ok := loop.Post.(*ast.IncDecStmt); ok {
+			adv = true
+		}
+	}
 	upd := false
 	for _, d := range nameDefs {
 		if loop.Body.Pos() <= d.Pos() && d.End() <= loop.Body.End() {
@@ -568,30 +638,43 @@ func g7GetFuncName(r *Repo, rep *Report) {
 	nameOf := r.lookup("derive.(*typesMap).nameOf")
 	g := newGraph(fi.Decl.Body, mayReturnFn(info))
 	rets := g.returnsOf()
-	okShape := len(rets) == 1 && len(rets[0].Results) == 1
-	var nameVar types.Object
-	if okShape {
-		if id, ok := ast.Unparen(rets[0].Results[0]).(*ast.Ident); ok {
-			nameVar = info.Uses[id]
+	// every return returns a name variable (one variable, or one for the hit and one for the minted name)
+	nameVars := map[types.Object]bool{}
+	okShape := len(rets) >= 1
+	for _, ret := range rets {
+		if len(ret.Results) != 1 {
+			okShape = false
+			continue
+		}
+		if id, ok := ast.Unparen(ret.Results[0]).(*ast.Ident); ok && info.Uses[id] != nil {
+			nameVars[info.Uses[id]] = true
+		} else {
+			okShape = false
 		}
 	}
-	if nameVar == nil {
+	if !okShape || len(nameVars) == 0 {
 		rep.fail(Finding{Rule: "G7", Key: "G7|GetFuncName|shape", Kind: "undecided", Where: []string{r.pos(fi.Decl.Pos())}, Msg: "GetFuncName does not return a single name variable"})
 		return
 	}
+	minted := map[types.Object]bool{}
 	var fromNameOf, fromNew, registered bool
 	var setCall *ast.CallExpr
 	ast.Inspect(fi.Decl.Body, func(n ast.Node) bool {
 		switch x := n.(type) {
 		case *ast.AssignStmt:
 			if len(x.Lhs) >= 1 {
-				if id, ok := x.Lhs[0].(*ast.Ident); ok && (info.Defs[id] == nameVar || info.Uses[id] == nameVar) && len(x.Rhs) == 1 {
+				if id, ok := x.Lhs[0].(*ast.Ident); ok && (nameVars[info.Defs[id]] || nameVars[info.Uses[id]]) && len(x.Rhs) == 1 {
 					if c, ok := x.Rhs[0].(*ast.CallExpr); ok {
 						if nameOf != nil && callee(info, c) == nameOf.Fn {
 							fromNameOf = true
 						}
 						if newName != nil && callee(info, c) == newName.Fn {
 							fromNew = true
+							if o := info.Defs[id]; o != nil {
+								minted[o] = true
+							} else {
+								minted[info.Uses[id]] = true
+							}
 						}
 					}
 				}
@@ -600,7 +683,7 @@ func g7GetFuncName(r *Repo, rep *Report) {
 			if set != nil && (callee(info, x) == set.Fn || (func() bool { o := callee(info, x); return o != nil && o.Name() == "SetFuncName" })()) {
 				setCall = x
 				if len(x.Args) >= 1 {
-					if id, ok := x.Args[0].(*ast.Ident); ok && info.Uses[id] == nameVar {
+					if id, ok := x.Args[0].(*ast.Ident); ok && nameVars[info.Uses[id]] {
 						registered = true
 					}
 				}
@@ -609,6 +692,12 @@ func g7GetFuncName(r *Repo, rep *Report) {
 		return true
 	})
 	// registration must happen on the miss path before returning: setCall dominates... (miss branch only) — check it is reachable only when !ok and precedes return
+	if registered && setCall != nil {
+		// the name that is registered is the one newName minted
+		if id, ok := setCall.Args[0].(*ast.Ident); !ok || !minted[info.Uses[id]] {
+			registered = false
+		}
+	}
 	if fromNameOf && fromNew && registered && setCall != nil {
 		rep.pass("G7")
 		rep.sample(map[string]string{"rule": "G7 GetFuncName registers what it returns", "site": r.pos(setCall.Pos())})
